@@ -29,6 +29,7 @@ type c04Fam struct {
 	conf machConf
 	reqs [][]string
 	al   []mOp
+	seps []string // separator bytes for the colliding-name witnesses (family "collide")
 }
 
 func c04Families() []c04Fam {
@@ -84,6 +85,11 @@ func c04Families() []c04Fam {
 	for _, s := range []string{"a", "ab", "abc"} {
 		cl.reqs = append(cl.reqs, []string{s, "data1", "read"})
 	}
+	// the same with every byte a key could be joined with: (x, y+s+z) against (x+s+y, z)
+	for _, sep := range []string{":", ",", "|", "/", " ", "-", "_", ".", "\t", "$", "#", ";"} {
+		cl.reqs = append(cl.reqs, []string{"x" + sep + "y", "data1", "read"}, []string{"x", "data1", "read"})
+		cl.seps = append(cl.seps, sep)
+	}
 	cl.al = []mOp{
 		{Kind: "add", Pt: "g", R1: [][]string{{"a", "bc"}}},
 		{Kind: "remove", Pt: "g", R1: [][]string{{"a", "bc"}}},
@@ -94,6 +100,7 @@ func c04Families() []c04Fam {
 		{Kind: "remove", Pt: "p", R1: [][]string{{"bc", "data1", "read"}}},
 		{Kind: "add", Pt: "p", R1: [][]string{{"c", "data1", "read"}}},
 		{Kind: "add", Pt: "p", R1: [][]string{{"", "data1", "read"}}},
+		{Kind: "load"},
 	}
 	var cd c04Fam
 	cd.name, cd.conf = "domain", machDomain
@@ -111,6 +118,7 @@ func c04Families() []c04Fam {
 		{Kind: "add", Pt: "p", R1: [][]string{{"bc", "d", "data1", "read"}}},
 		{Kind: "add", Pt: "p", R1: [][]string{{"c", "d", "data1", "read"}}},
 		{Kind: "add", Pt: "p", R1: [][]string{{"b", "d", "data1", "read"}}},
+		{Kind: "load"},
 	}
 	// a link that is REDUNDANT when it is added (the role is already reached through a detour) and
 	// becomes the only path later: it has to be stored like any other
@@ -282,6 +290,21 @@ func init() {
 				}
 			}
 			rec(nil, true)
+		}
+		// separator witnesses: for every separator byte s, the links (x -> y+s+z) and (x+s+y -> z)
+		// with a rule on z only: x must not inherit z's permission, x+s+y must
+		for si, sep := range c04Families()[2].seps {
+			f := c04Families()[2]
+			yz, xy := "y"+sep+"z", "x"+sep+"y"
+			rules := []prule{{"p", []string{"z", "data1", "read"}}, {"p", []string{yz, "data1", "read"}}}
+			noop := []mOp{{Kind: "load"}, {Kind: "add", Pt: "p", R1: [][]string{{"w", "data2", "read"}}}}
+			// only x -> y+s+z: x is allowed (through y+s+z), x+s+y is not; asked in that order, so
+			// that g(x, y+s+z) = true is memoised when g(x+s+y, z) is evaluated
+			f.reqs = [][]string{{"x", "data1", "read"}, {xy, "data1", "read"}}
+			c04Seq(c, fmt.Sprintf("c04.sep.%d", si), f, append(append([]prule(nil), rules...), prule{"g", []string{"x", yz}}), noop, true)
+			// only x+s+y -> z: the other way round
+			f.reqs = [][]string{{xy, "data1", "read"}, {"x", "data1", "read"}}
+			c04Seq(c, fmt.Sprintf("c04.sepr.%d", si), f, append(append([]prule(nil), rules...), prule{"g", []string{xy, "z"}}), noop, true)
 		}
 		c.Exhaust = true
 		c04Wide(c)
